@@ -57,7 +57,7 @@ func checkC13(c *Ctx, r *Report) {
 	}
 	nMut := 0
 	for _, f := range c.FnsOfPkg(idP) {
-		for _, in := range findInstrs(f, isMutator) {
+		for _, in := range findInstrsIn(f, isMutator) {
 			nMut++
 			root := c.Root(f)
 			cp, known := connParamOf[fnKey(root)]
@@ -437,7 +437,7 @@ func checkC13(c *Ctx, r *Report) {
 	{
 		found := false
 		for _, f := range c.FnsOfPkg(idP) {
-			for _, call := range callsIn(f, "(core/network.*).Notify") {
+			for _, call := range callsInOnly(f, "(core/network.*).Notify") {
 				if mi, ok := callArgs(call)[1].(*ssa.MakeInterface); ok && strings.Contains(mi.X.Type().String(), "identify.netNotifiee") {
 					found = true
 				}
@@ -447,6 +447,41 @@ func checkC13(c *Ctx, r *Report) {
 	}
 
 	// ---- R6 ---------------------------------------------------------------
+	// the TTL rewrites above rely on the in-memory address book: UpdateAddrs(p, old, new) leaves no entry of p on
+	// the old TTL — each one is re-classed (TTL/Expiry set, addrs.Update) or dropped (addrs.Delete)
+	if f := r5.need("(*p2p/host/peerstore/pstoremem.memoryAddrBook).UpdateAddrs"); f != nil {
+		eaT := "p2p/host/peerstore/pstoremem.expiringAddr"
+		isOld := func(v ssa.Value) bool { return isParamVar(c, v, "oldTTL") }
+		isTTL := func(v ssa.Value) bool { return isLoadOfField(eaT + ".TTL")(strip2(v)) }
+		match := eqEdge(isOld, isTTL, true)
+		var from []CFGEdge
+		for _, b := range blocksDeep(f) {
+			for s := range b.Succs {
+				if match(b, s) {
+					from = append(from, CFGEdge{b, s})
+				}
+			}
+		}
+		if len(from) == 0 {
+			r5.Fail("pstoremem UpdateAddrs: oldTTL == a.TTL test", f.Pos(), "not found", "")
+		} else {
+			maint := func(in ssa.Instruction) bool {
+				return isCallTo(in, "(*p2p/host/peerstore/pstoremem.peerAddrs).Update", "(*p2p/host/peerstore/pstoremem.peerAddrs).Delete")
+			}
+			h := iterationOf(f, from[0].B)
+			q := &Cut{Fn: f, FromEdges: from, Sep: maint, Target: func(in ssa.Instruction) bool {
+				if _, isRet := in.(*ssa.Return); isRet {
+					return true
+				}
+				if _, isNext := in.(*ssa.Next); isNext {
+					return true
+				}
+				return h != nil && in.Block() == h && instrIndex(in) == 0
+			}}
+			r5.mustPass(f, "pstoremem UpdateAddrs: every entry on the old TTL is re-classed or dropped before the next one is looked at", q, len(from))
+		}
+	}
+
 	r6 := r.Rule("C13-R6", "E1/E4", 10, "identify-wait channel always released; conns under connsMu; entry deleted on disconnect")
 	if f := r6.need(ids("IdentifyWait")); f != nil {
 		gos := findInstrs(f, func(in ssa.Instruction) bool { _, ok := in.(*ssa.Go); return ok })
@@ -460,8 +495,13 @@ func checkC13(c *Ctx, r *Report) {
 			if g == nil {
 				r6.Fail(ids("IdentifyWait")+": worker goroutine", f.Pos(), "not a function literal", "")
 			} else {
+				// the entry's wait channel: read from the field, or the very channel that is stored into it
 				isWaitChan := func(v ssa.Value) bool {
-					return derivesFrom(v, isLoadOfField(idP+".entry.IdentifyWaitChan"))
+					if derivesFrom(v, isLoadOfField(idP+".entry.IdentifyWaitChan")) {
+						return true
+					}
+					mk, isMk := strip(v).(*ssa.MakeChan)
+					return isMk && storedInField(mk, idP+".entry.IdentifyWaitChan")
 				}
 				dcl := findInstrs(g, func(in ssa.Instruction) bool {
 					d, ok := in.(*ssa.Defer)
@@ -489,16 +529,21 @@ func checkC13(c *Ctx, r *Report) {
 				if !ok || !isFieldWrite(in, idP+".entry.IdentifyWaitChan") {
 					return false
 				}
-				_, isMk := strip2(st.Val).(*ssa.MakeChan)
+				_, isMk := strip(st.Val).(*ssa.MakeChan)
 				return isMk
 			})
-			w, n := (&Cut{Fn: f, From: mk, Target: isRet, Sep: inSet(gos)}).Run(c)
+			w, n := "wait channel creation not found", 0
+			if len(mk) == 1 {
+				w, n = (&Cut{Fn: f, From: mk, Target: isRet, Sep: inSet(gos)}).Run(c)
+			}
 			r6.Check(len(mk) == 1 && w == "", ids("IdentifyWait")+": a new wait channel is always paired with a started worker", f.Pos(), n+1, "", "", w)
 		}
 		// closed-connection path: the returned fresh channel is closed
 		for _, ret := range returnsOf(f) {
 			v := strip(retVal(ret, 0))
-			if mkc, ok := v.(*ssa.MakeChan); ok {
+			if mkc, ok := v.(*ssa.MakeChan); ok && storedInField(mkc, idP+".entry.IdentifyWaitChan") {
+				r6.OK(ids("IdentifyWait")+": returns the entry's wait channel", instrPos(ret), 1, "the channel just stored in the entry")
+			} else if ok {
 				cl := findInstrs(f, func(in ssa.Instruction) bool {
 					ci, ok := in.(*ssa.Call)
 					return ok && calleeKey(ci) == "builtin.close" && strip(ci.Call.Args[0]) == ssa.Value(mkc)
@@ -685,4 +730,30 @@ func ttlClassesOf(v ssa.Value, ttlIs func(ssa.Value, string) bool) ([]string, *s
 		}
 	}
 	return names, phi.Block()
+}
+
+// storedInField: the value is stored (directly) into the keyed struct field somewhere in its function.
+func storedInField(v ssa.Value, fieldKey string) bool {
+	refs := v.Referrers()
+	if refs == nil {
+		return false
+	}
+	for _, r := range *refs {
+		st, ok := r.(*ssa.Store)
+		if !ok || st.Val != v {
+			continue
+		}
+		if isFieldWrite(st, fieldKey) {
+			return true
+		}
+		// through a local variable (a cell when a closure captures it): the loads of the cell that see this value
+		if al, isAl := st.Addr.(*ssa.Alloc); isAl {
+			for _, r2 := range *al.Referrers() {
+				if ld, isLd := r2.(*ssa.UnOp); isLd && ld.Op == token.MUL && strip(ld) == v && storedInField(ld, fieldKey) {
+					return true
+				}
+			}
+		}
+	}
+	return false
 }
